@@ -399,8 +399,10 @@ def mutations(max_n=3):
 
 
 def _comps(mx=64):
-    small_desc = st.lists(st.tuples(st.sampled_from([0xC1, 0xC3, 0xC4, 0xC8, 0x10]), st.binary(max_size=6)), max_size=3, unique_by=lambda t: t[0])
-    plain = st.fixed_dictionaries(dict(desc=small_desc.map(lambda d: [(t, b"\x00" if (t == 0xC2) else v) for t, v in d]), blob=S.payload(mx), actual_len=st.none(), enc=st.just(False)))
+    small_desc = st.lists(st.tuples(st.sampled_from([0xC1, 0xC2, 0xC3, 0xC4, 0xC8, 0x10]), st.one_of(st.binary(max_size=6), st.sampled_from([b"", b"\x00", b"\x01", b"\x03", b"\x02\x00"]))),
+                          max_size=3, unique_by=lambda t: t[0])
+    # the ENC tag (C2) appears with empty / short / long values; only the exact value 02 would claim session-key encryption
+    plain = st.fixed_dictionaries(dict(desc=small_desc.map(lambda d: [(t, b"\x00" if (t == 0xC2 and v == b"\x02") else v) for t, v in d]), blob=S.payload(mx), actual_len=st.none(), enc=st.just(False)))
     return st.lists(st.one_of(plain, plain, S.enc_component(48)), max_size=3)
 
 
@@ -425,6 +427,15 @@ _bf2_lines = st.sampled_from(["#> REBOOT", "#> REBOOT", "#> CHECK_FWVER VERSIOND
                               "#> SELECT FILTER=", "#> SELECT", "#> SELECT_IF PROTOCOL=FOO", "#> SELECT_IF PROTOCOL=*", "#> SELECT_IF", "#> SELECT_IF PROTOCOL=BRP=1", "#>", "#> X a=b=c", "#> X ,,=",
                               "##CRC: 0x", "##CRC: 12", "##CRC", "##Firmware: 11", "##Firmware: abcd 0123456789 1.2.3", "##Firmware: 1100 0123456789 9.99.999", "##a:b:c", "##", ":", ":00", ":0000",
                               ":000035", ":0000FF00", ":0000FE00", ":00003503020000", ":000035FF0000", ":00007000", ":00008400", ":0000840100", ":000033020000"])
+
+
+_INSTR_NAMES = ["REBOOT", "CRC", "SELECT", "CHECK_FWVER", "SELECT_IF", "Firmware", "Creator", "Bf3Update", "X"]
+_INSTR_VALUES = ["", "x", "*", "0x12345678", "0x123456789", "0x", "-1", "1100 0123456789 1.02.03", "-123 0123456789 1.02.03", "99999 0123456789 1.02.03", "1100 0123456789 1.02.999",
+                 "1100 0123456789 D-12345", "FILTER=01 01 00 B6", "FILTER=01 02 00 B6", "FILTER=", "FILTER=zz", "PROTOCOL=BRP", "PROTOCOL=*", "PROTOCOL=FOO", "VERSIONDESC=*", "VERSIONDESC=000003414243",
+                 "VERSIONDESC=0000", "VERSIONDESC=", "A=1,B=2", "A=1=2", ",", "=", "a:b"]
+_bf2_instr_line = st.builds(lambda pre, name, sep, val: pre + name + sep + val, st.sampled_from(["#> ", "#>", "##", "## "]), st.sampled_from(_INSTR_NAMES), st.sampled_from([" ", ": ", ":", ""]),
+                            st.sampled_from(_INSTR_VALUES))
+_bf2_lines = st.one_of(_bf2_lines, _bf2_instr_line)
 
 
 def strat_bf2(tier):
